@@ -17,6 +17,10 @@ type WKTOpts struct {
 	// Degree: how the angular unit's factor is written in the GEOGCS ("" = 0.017453292519943295; writers differ in the
 	// number of digits: 0.0174532925199433, 0.01745329251994328, 0.0174532925199, 0.01745329252, 0.0174533)
 	Degree string
+	// Names: how the free-text names are written. 0: plain (no commas anywhere); 1: spheroid names as the tables have
+	// them, commas included ("GRS 1980(IUGG, 1980)"), a comma in the name of a spheroid given by (a, 1/f) and in the
+	// PROJCS and GEOGCS names; 2: one-character GEOGCS, PROJCS and (for datums given by TOWGS84) DATUM names
+	Names int `json:"names,omitempty"`
 }
 
 // DegreeSpellings are the ways of writing pi/180 met in WKT files.
@@ -41,7 +45,7 @@ var WKTDatumNames = map[string][]string{
 func (d Def) WKT(o WKTOpts, variant int) string {
 	s := d.wkt(o, variant)
 	if o.Sep != "" {
-		s = strings.ReplaceAll(s, ",", ","+o.Sep) // names never contain commas
+		s = strings.ReplaceAll(s, ",", ","+o.Sep) // (a comma inside a free-text name gets the white space too: part of the name)
 	}
 	return s
 }
@@ -61,7 +65,10 @@ func (d Def) wkt(o WKTOpts, variant int) string {
 		if !ok {
 			name, e = "WGS84", T.Ellipsoids["WGS84"]
 		}
-		sname = strings.ReplaceAll(e.EllipseName, ",", "") // commas would split the clause
+		sname = e.EllipseName
+		if o.Names != 1 {
+			sname = strings.ReplaceAll(sname, ",", "")
+		}
 		sname = strings.ReplaceAll(sname, "\"", "")
 		if e.Rf != 0 {
 			rfText = f(e.Rf)
@@ -72,6 +79,9 @@ func (d Def) wkt(o WKTOpts, variant int) string {
 		}
 	case d.EllpsKind == "arf" || d.EllpsKind == "ab":
 		rfText = f(d.Rf)
+		if o.Names == 1 {
+			sname = "Custom Spheroid (a, 1/f)"
+		}
 	default:
 		e := T.Ellipsoids["WGS84"]
 		sname, rfText = "WGS 84", f(e.Rf)
@@ -95,6 +105,16 @@ func (d Def) wkt(o WKTOpts, variant int) string {
 	if o.ESRI && !strings.HasPrefix(dname, "D_") && d.DatumKind != "name" {
 		dname = "D_" + dname
 	}
+	gname, pcsname := "GCS_Generated", "Generated"
+	switch o.Names {
+	case 1:
+		gname, pcsname = "Generated, geographic", "Generated / zone 3 (E,N)"
+	case 2:
+		gname, pcsname = "G", "P"
+		if d.DatumKind != "name" {
+			dname = "D"
+		}
+	}
 	auth := func(code string) string {
 		if o.Authority {
 			return fmt.Sprintf(",AUTHORITY[\"EPSG\",\"%s\"]", code)
@@ -105,8 +125,8 @@ func (d Def) wkt(o WKTOpts, variant int) string {
 	if deg == "" {
 		deg = "0.017453292519943295"
 	}
-	geog := fmt.Sprintf("GEOGCS[\"GCS_Generated\",DATUM[\"%s\",SPHEROID[\"%s\",%s,%s%s]%s%s],PRIMEM[\"Greenwich\",0%s],UNIT[\"Degree\",%s%s]%s]",
-		dname, sname, f(a), rfText, auth("7030"), tow, auth("6326"), auth("8901"), deg, auth("9122"), auth("4326"))
+	geog := fmt.Sprintf("GEOGCS[\"%s\",DATUM[\"%s\",SPHEROID[\"%s\",%s,%s%s]%s%s],PRIMEM[\"Greenwich\",0%s],UNIT[\"Degree\",%s%s]%s]",
+		gname, dname, sname, f(a), rfText, auth("7030"), tow, auth("6326"), auth("8901"), deg, auth("9122"), auth("4326"))
 	if d.Proj == "longlat" {
 		return geog
 	}
@@ -154,7 +174,7 @@ func (d Def) wkt(o WKTOpts, variant int) string {
 		}
 	}
 	var sb strings.Builder
-	sb.WriteString("PROJCS[\"Generated\"," + geog)
+	sb.WriteString("PROJCS[\"" + pcsname + "\"," + geog)
 	if o.UnitFirst {
 		sb.WriteString("," + unit)
 	}
